@@ -1,5 +1,6 @@
 import DrummerVerif.Lemmas.C17
 import DrummerVerif.Lemmas.C10H
+import DrummerVerif.Lemmas.Small
 /-!
 # C17 — the Drummer service API is a faithful, crash-proof front-end of the DB
 
@@ -42,6 +43,15 @@ theorem report_reply_is_pending_batch :
     Rel d' a (Box.report b nhi.raftAddress a) ∧
     (nhi.raftAddress = a → n = List.length (Option.getD b.pend []) ∧ DB.lookupRequests d' a = Option.getD b.pend []) :=
   @_root_.Drummer.applyReport_refines
+
+/-! ### a report is on record at the DB's current logical time, whatever time field it carried -/
+
+theorem report_is_recorded_at_the_current_time :
+    ∀ (d d' : DB) (nhi : NodeHostInfo) (n : Nat),
+      DB.applyReport d nhi = Outcome.ok (d', n) →
+        Option.map (fun x => x.lastTick) (amGet d'.hostInfo nhi.raftAddress) = some d.tick :=
+  @_root_.Drummer.report_recorded_at_current_time
+
 
 end C17
 end Drummer
